@@ -99,12 +99,20 @@ def _item(line):
     return "field", (m.group(1).lstrip("%") if m else s[:20])
 
 
-def doc_blocks(wit):
+def doc_blocks(wit, with_owner=False):
+    """with_owner: 4-tuples (kind, name, lines, owner) where owner = name of the enclosing top-level
+    `interface` block (column 0 ... closing `}` at column 0) or None."""
     lines = wit.split("\n")
-    out, i = [], 0
+    out, i, owner = [], 0, None
     while i < len(lines):
         m = _DOC.match(lines[i])
         if not m:
+            l = lines[i]
+            mo = re.match(r"interface\s+%?([A-Za-z][A-Za-z0-9-]*)\s*\{", l)
+            if mo and not l.rstrip().endswith("}"):
+                owner = mo.group(1)
+            elif l.startswith("}"):
+                owner = None
             i += 1
             continue
         blk = []
@@ -115,9 +123,14 @@ def doc_blocks(wit):
             blk.pop(0)
         while blk and blk[-1] == "":
             blk.pop()
-        kind, name = _item(lines[i]) if i < len(lines) else ("eof", "")
+        j = i
+        while j < len(lines) and lines[j].strip() == "":
+            j += 1
+        kind, name = _item(lines[j]) if j < len(lines) else ("eof", "")
+        if j >= len(lines) or lines[j].strip().startswith("}"):
+            continue                                   # a doc comment that documents nothing (wit-parser drops it)
         if blk:
-            out.append((kind, name, blk))
+            out.append((kind, name, blk, name if (kind == "interface" and owner is None) else owner) if with_owner else (kind, name, blk))
     return out
 
 
